@@ -44,7 +44,12 @@ RULE = (
     "unbalanced parentheses, bare generator bodies): both engines must raise.  Part 1i: helper calls with multi-field "
     "lists (a matching field and fields whose value makes the helper raise, both orders, duplicates) evaluated in child "
     "interpreters under PYTHONHASHSEED 0,1,2,3,5,11: outcome == the documented loop (listed order, first match wins).  "
-    "Part 1j: every whitelisted constructor / namespace in a cold child interpreter (only flow.record.selector and "
+    "Part 1k: field_regex / field_contains / field_equals / lower / upper on fixed records whose text, wstring and "
+    "bytes values hold \\n, \\r\\n, \\x0b, \\x0c, \\x1c-\\x1e, \\x85, U+2028/9, NUL, leading / trailing blanks and special case "
+    "mappings, with patterns using . ^ $ \\s \\b \\Z inline flags and (?i) over non-ASCII.  Part 1l: plain and grouped records "
+    "declaring a field whose NAME collides with something the engines / helpers use (records, name, fields, values, "
+    "Type, r, str, any, lower, names, has_field, ...) as string / varint / string[] / record / record[] field, through "
+    "every helper, attribute access and typed matcher.  Part 1j: every whitelisted constructor / namespace in a cold child interpreter (only flow.record.selector and "
     "RecordDescriptor imported, plain fields), compiled before interpreted and the other way round: outcome == the warm "
     "in-process outcome, and == the reference for net.*.  A case is non-trivial when the reference evaluator defines it (every "
     "sub-expression evaluated eagerly without error) and it reads at least one field; distinct = distinct (expression, "
@@ -62,6 +67,7 @@ ASSUMPTIONS = [
     "re-use of a loop variable name that is still bound - also by a sibling generator expression that is still being consumed as the iterable of an earlier for clause - is may-reject and not generated as must-support",
     "field_equals / field_contains / field_regex visit the listed fields in the listed order and stop at the first match (the loop of their documentation); a value on which the helper's own operation raises makes the call raise when it is reached",
     "text that builtin ast.parse(text, mode='eval') rejects is outside the language whatever wrapper would make it parse",
+    "grouped records whose members declare a field named like GroupedRecord's own instance attributes (name, records, descriptors, flat_fields, fieldname_to_record) are not generated: the group object itself hides such a field (record composition, not the selector)",
 ]
 SHARDS = {"quick": 8, "thorough": 16}
 BUDGET_S = {"quick": 150, "thorough": 900}
@@ -290,6 +296,16 @@ def classify(engine, tree, rec, ref, got, exc):
                     return "compiled-reverse-membership-typematcher"
         except (Undefined, Unsupported):
             pass
+    # compiled engine: the record wrapper keeps the wrapped record in an attribute called `record`, which hides a
+    # field of that name (r.record is the Record itself; typed matchers and helpers reading the field go wrong too)
+    if engine == "compiled" and "record" in getattr(rec._desc, "fields", {}):
+        ftype = rec._desc.fields["record"].typename
+        reads = any(isinstance(n, ast.Attribute) and n.attr == "record" and isinstance(n.value, ast.Name) and n.value.id == "r" for n in ast.walk(tree))
+        typed = any(_is_type_chain(n) and ast.unparse(n).startswith("Type." + ftype.rstrip("[]")) for n in ast.walk(tree) if isinstance(n, ast.Attribute))
+        listed = any(isinstance(n, ast.Call) and (refselector.call_path(n) or "").startswith("field_")
+                     and any(isinstance(c, ast.Constant) and c.value == "record" for c in ast.walk(n)) for n in ast.walk(tree))
+        if reads or typed or listed:
+            return "compiled-field-named-record-shadowed"
     return None
 
 
@@ -420,6 +436,18 @@ def generate(ctx):
         if ctx.mine(idx):
             yield {"k": "cold", "kind": "cold-process", "expr": "<batch of whitelisted constructors>", "tags": [], "order": order}
         idx += 1
+    # part 1k: helpers on values with line feeds / control characters / special case mappings (regex flags, nocase)
+    for ri, rec in enumerate(ctl_records()):
+        for expr in ctl_exprs(rec):
+            if ctx.mine(idx):
+                yield {"k": "ctl", "kind": "control-characters", "expr": expr, "tags": [], "pool": "ctl", "rec": ri}
+            idx += 1
+    # part 1l: field names that collide with attributes the engines / helpers look at
+    for ri, (rec, fname, ftype) in enumerate(collision_records()):
+        for expr in collision_exprs(rec, fname, ftype):
+            if ctx.mine(idx):
+                yield {"k": "collision", "kind": "field-name-collision", "expr": expr, "tags": [], "pool": "collision", "rec": ri}
+            idx += 1
     # part 2: random expressions, deeper
     n = ctx.scale(450, 14000)
     depths = [0, 1, 2, 2, 3, 3] if ctx.quick else [1, 2, 3, 3, 4, 4, 5, 6]
@@ -699,6 +727,102 @@ def exec_reject(ctx, case):
     ctx.sample({"text": text, "expected": "rejected"}, kind="reject")
 
 
+CTL_VALUES = ["powershell\n-enc AAAA", "a\nb", "a\r\nb", "a\x0bb", "a\x0cb", "a\x1cb", "a\x1db", "a\x1eb", "a\x85b", "a\u2028b", "a\u2029b",
+              "a\x00b", "line\n", "line\r\n", "\nline", "tab\tsep", " lead", "end ", "a b", "ab", "Straße", "STRASSE", "İstanbul", "ǅ", "\u212a",
+              "k", "ſ", "", "\n", "powershell -enc"]
+CTL_PATTERNS = ["powershell.*-enc", "a.b", "a..b", "^b", "b$", "^a", "line$", "line\\Z", "^line$", "a\\sb", "a\\s+b", "\\ba\\b", "\\bb\\b", "^a.b$", "a.*b",
+                "a[^x]b", "(?s)a.b", "(?m)^b", "(?m)a$", "(?i)strasse", "(?i)straße", "(?i)STRAßE", "(?i)i", "(?i)k", "(?i)\u212a", "(?i)ǆ", "(?i)s", ".",
+                "^$", "\\n", "\\x00", "\\Aa", "b\\Z", "^.*$", "\\S+\\s\\S+", "(?x) a . b"]
+
+
+def ctl_records():
+    """Fixed records (same for every seed) whose text / bytes values hold line feeds, other line-break and control
+    characters, NUL, leading / trailing blanks and characters with special case mappings."""
+    from flow.record import RecordDescriptor
+
+    D = RecordDescriptor("sel/ctl", [("string", "cmd"), ("string", "s2"), ("wstring", "w"), ("bytes", "by"), ("string[]", "l")])
+    out = []
+    for i, v in enumerate(CTL_VALUES):
+        out.append(D(cmd=v, s2=CTL_VALUES[(i + 7) % len(CTL_VALUES)], w=v, by=v.encode("utf-8", "surrogatepass"), l=[v, "x"]))
+    return out
+
+
+def ctl_exprs(rec):
+    v = rec.cmd
+    out = ["field_regex(r, ['cmd'], %r)" % p for p in CTL_PATTERNS]
+    out += ["field_regex(r, ['s2', 'cmd'], %r)" % p for p in CTL_PATTERNS[:6]]
+    out += ["field_regex(r, ['w'], %r)" % p for p in CTL_PATTERNS[:12]]
+    out += ["field_regex(r, ['by'], %r)" % p.encode() for p in ("a.b", "^b", "b$", "line$", "a\\sb", "powershell.*-enc", "(?s)a.b")]
+    cands = list(dict.fromkeys([v, v.upper(), v.lower(), v.casefold(), v.swapcase(), v.strip(), v.replace("\n", " "), v[:1], v[-1:], v[1:-1], "b", "a b", "-enc"]))
+    for c in cands:
+        out += ["field_contains(r, ['cmd'], [%r])" % c, "field_contains(r, ['cmd'], [%r], nocase=False)" % c, "field_equals(r, ['cmd'], [%r])" % c,
+                "field_equals(r, ['cmd', 'w'], [%r], nocase=False)" % c]
+        if c.strip():
+            out += ["field_contains(r, ['cmd'], [%r], word_boundary=True)" % c, "field_contains(r, ['cmd'], [%r], nocase=False, word_boundary=True)" % c]
+    out += ["lower(r.cmd) == %r" % v.lower(), "upper(r.cmd) == %r" % v.upper(), "lower(r.cmd) == %r" % v.casefold(), "%r in r.cmd" % "\n",
+            "r.cmd == %r" % v, "r.cmd != %r" % v.strip(), "%r in r.l" % v, "Type.string == %r" % v, "%r in Type.string" % v[1:]]
+    return list(dict.fromkeys(out))
+
+
+COLLISION_NAMES = ["records", "name", "fields", "desc", "values", "keys", "items", "get", "type", "Type", "r", "str", "any", "all", "lower", "upper",
+                   "names", "has_field", "field_contains", "field_equals", "field_regex", "get_type", "net", "record", "match", "data", "rec",
+                   "expression", "val", "value", "descriptors", "flat_fields", "fieldname_to_record", "repr", "self", "cls", "getfields", "_desc",
+                   "_source2", "None_", "True_"]
+
+
+def collision_records():
+    """-> [(record, colliding field name, its type)]: plain records that declare a field with a name the engines or the
+    helpers also use for something else, as string / varint / string[] / record / record[] field; plus grouped records
+    holding such members.  Names the library refuses in a descriptor are skipped."""
+    from flow.record import GroupedRecord, RecordDescriptor
+
+    cache = collision_records.__dict__.setdefault("cache", None)
+    if cache is not None:
+        return cache
+    Sub = RecordDescriptor("col/sub", [("string", "ss"), ("varint", "sn")])
+    Plain = RecordDescriptor("col/plain", [("string", "other"), ("varint", "k")])
+    values = {"string": "Hello", "varint": 7, "string[]": ["Hello", "x"], "record": Sub(ss="inner", sn=5), "record[]": [Sub(ss="n1", sn=1), Sub(ss="n2", sn=2)]}
+    out = []
+    for ni, fname in enumerate(COLLISION_NAMES):
+        for ftype in ("string", "varint", "string[]", "record", "record[]"):
+            try:
+                D = RecordDescriptor("col/t%d" % ni, [(ftype, fname), ("string", "other"), ("varint", "k")])
+                rec = D(**{fname: values[ftype], "other": "Hello", "k": 7})
+            except Exception:  # noqa: BLE001 - not a valid field name for the library: outside the input class
+                continue
+            out.append((rec, fname, ftype))
+            # grouped: not the names of GroupedRecord's own instance attributes (name, records, descriptors, flat_fields,
+            # fieldname_to_record) - such a member field is unreachable through the group itself (base.py, see ASSUMPTIONS)
+            if ftype in ("record[]", "string", "varint") and fname in ("fields", "values", "r", "Type", "names", "record", "type", "get", "data"):
+                try:
+                    out.append((GroupedRecord("col/group", [Plain(other="Hello", k=7), rec]), fname, ftype))
+                    out.append((GroupedRecord("col/group", [rec, Plain(other="x", k=1)]), fname, ftype))
+                except Exception:  # noqa: BLE001
+                    pass
+    collision_records.cache = out
+    return out
+
+
+def collision_exprs(rec, fname, ftype):
+    out = ["names(r) == names(r)", "'col/sub' in names(r)", "'col/plain' in names(r)", "%r in names(r)" % rec._desc.name, "name(r) == %r" % rec._desc.name,
+           "name(r) == 'col/sub'", "has_field(r, %r)" % fname, "has_field(r, 'other')", "r.other == 'Hello'", "r.k == 7",
+           "field_equals(r, [%r, 'other'], ['hello'])" % fname, "field_contains(r, ['other', %r], ['ell'])" % fname if ftype in ("string", "string[]") else "r.k > 1",
+           "Type.string == 'Hello'", "Type.varint == 7", "'ell' in Type.string", "Type.varint >= 5", "Type.string == 'inner'", "Type.varint == 5",
+           "field_contains(r, Type.string, ['ell'])", "any(f == %r for f in Type.%s)" % (fname, ftype if ftype in ("string", "varint") else "string")]
+    if ftype == "string":
+        out += ["r.%s == 'Hello'" % fname, "lower(r.%s) == 'hello'" % fname, "field_regex(r, [%r], '^H')" % fname, "'ell' in r.%s" % fname,
+                "str(r.%s) == 'Hello'" % fname, "r.%s != r.other" % fname]
+    elif ftype == "varint":
+        out += ["r.%s == 7" % fname, "r.%s + 1 == 8" % fname, "r.%s in [7]" % fname, "r.%s == r.k" % fname, "str(r.%s) == '7'" % fname]
+    elif ftype == "string[]":
+        out += ["'Hello' in r.%s" % fname, "any(x == 'x' for x in r.%s)" % fname, "r.%s == ['Hello', 'x']" % fname, "all(lower(x) != 'q' for x in r.%s)" % fname]
+    elif ftype == "record":
+        out += ["r.%s.ss == 'inner'" % fname, "r.%s.sn == 5" % fname, "r.%s is not None" % fname, "name(r.%s) == 'col/sub'" % fname if False else "r.%s.sn > 1" % fname]
+    else:
+        out += ["any(x.ss == 'n2' for x in r.%s)" % fname, "all(x.sn > 0 for x in r.%s)" % fname, "r.%s != []" % fname, "any(x.sn == 2 for x in r.%s if x.ss != 'n1')" % fname]
+    return list(dict.fromkeys(out))
+
+
 def near_miss_names():
     """-> sorted list of (name, dotted).  Every proper string prefix of a whitelisted type path that does not end at a
     component boundary, plus one-character extensions of the complete paths - minus everything that IS in the language
@@ -878,6 +1002,10 @@ def execute(ctx, case):
         return
     if case["k"] == "deep":
         rec = deep_for(ctx, case["pool"])[case["rec"]][0]
+    elif case["k"] == "ctl":
+        rec = ctl_records()[case["rec"]]
+    elif case["k"] == "collision":
+        rec = collision_records()[case["rec"]][0]
     else:
         rec = pool_for(ctx, case["pool"])[case["rec"]]
     check_pair(ctx, case, expr, rec, None)
@@ -923,6 +1051,9 @@ def check_pair(ctx, case, expr, rec, long_lived):
             return
 
     kinds = node_kinds(tree)
+    if case["k"] in ("ctl", "collision"):
+        ctx.event("defined:" + case["kind"])
+        ctx.cell(case["kind"], expr.split("(")[0][:24], ref)
     if case["k"] == "deep":
         ctx.cell("typed-matcher-depth", case["kind"], ref)
     if case["k"] == "helper-type":
@@ -973,6 +1104,8 @@ def finish(ctx):
         ctx.require(have >= need, "must-support kind %s has only %d defined cases in shard %d (need %d)" % (k, have, ctx.shard, need))
     ctx.require(ctx.events.get("oracle_selfcheck_agree", 0) > 0, "the oracle self-check against builtin eval never ran")
     ctx.require(ctx.events.get("defined:may-reject", 0) > 0, "no defined may-reject case")
+    ctx.require(ctx.events.get("defined:control-characters", 0) > 0, "no defined helper case on control-character values in shard %d" % ctx.shard)
+    ctx.require(ctx.events.get("defined:field-name-collision", 0) > 0, "no defined case on colliding field names in shard %d" % ctx.shard)
     ctx.require(ctx.events.get("reject texts", 0) > 0, "no non-expression text was tried in shard %d" % ctx.shard)
     ctx.require(ctx.events.get("near-miss expressions", 0) > 0, "no near-miss identifier was tried in shard %d" % ctx.shard)
     ctx.require(ctx.events.get("defined:grouped-sequence", 0) > 0, "no defined typed-matcher case on a sequence of grouped records")
